@@ -18,6 +18,8 @@ C16-key     shared MEMO-KEY rule over formtransformations.py (e.g. a label-keyed
 
 from __future__ import annotations
 
+import itertools
+
 import ast
 
 from .. import corpus, sym, uflmodel, uflsem
@@ -36,6 +38,12 @@ def zero_out(e: T, a: T) -> T:
     names = {ex.args[0] for ex in a.data.values()}
     allnames = {s for ex in e.data.values() for s in sym.symbols_of(ex) if s.split("@")[0] in names}
     return subst_symbols(e, {n: sym.ZERO for n in allnames})
+
+
+def lin_avg(a):
+    """a cell average is a linear functional: modelled as multiplication by one fixed symbol"""
+    a = as_T(a)
+    return uflmodel.node(a.map(lambda v_: sym.mul(sym.sym("AVG"), v_)), "CellAvg", (a,))
 
 
 def family():
@@ -75,6 +83,33 @@ def family():
     add("variable(f*u)*v + g*v", S(P(cm["Variable"](P(f, u), Obj("label", ufl_class="Label", ufl_operands=(), _ufl_is_terminal_=True)), v), P(g, v)), (v, u))
     add("g*v   (no bilinear part)", P(g, v), (v, u))
     add("f*g + g*v + u*v   (with an argument-free term)", S(S(P(f, g), P(g, v)), P(u, v)), (v, u))
+    # generated: every linear wrapper over every affine combination in the trial function, times the test function
+    wrappers = [
+        ("(.)('+')", cm["PositiveRestricted"]),
+        ("(.)('-')", cm["NegativeRestricted"]),
+        ("conj(.)", cm["Conj"]),
+        ("real(.)", cm["Real"]),
+        ("variable(.)", lambda a: cm["Variable"](a, Obj("label", ufl_class="Label", ufl_operands=(), _ufl_is_terminal_=True))),
+        # a cell average is a linear functional: modelled as multiplication by one fixed symbol
+        ("cell_avg(.)", lin_avg),
+        ("(.)/f", lambda a: D(a, f)),
+        ("as_vector([., g])[0]", lambda a: idx(uflmodel.m_list_tensor(a, g), 0)),
+    ]
+    affine = [
+        ("u - g", S(u, P(m1, g))),
+        ("g - u", S(g, P(m1, u))),
+        ("k*u + g", S(P(k, u), g)),
+        ("u", u),
+        ("g", g),
+        ("u*v + g   (bilinear + argument-free)", S(P(u, v), g)),
+    ]
+    for (dw, wf), (da, a) in itertools.product(wrappers, affine):
+        inner = wf(a)
+        if "u*v" in da:
+            add(f"{dw.replace('.', da)}", inner, (v, u))
+        else:
+            add(f"{dw.replace('.', da)} * v", P(inner, v), (v, u))
+            add(f"v * {dw.replace('.', da)} + f*v", S(P(v, inner), P(f, v)), (v, u))
     add("as_vector([u*v, g*v])[i]*F[i]  is rejected or split correctly", mult(idx(uflmodel.m_list_tensor(P(u, v), P(u, P(g, v))), i), idx(F, i)), (v, u))
     return E
 
@@ -100,6 +135,7 @@ def run(ctx) -> Report:
             H = PassHarness(ctx, f"{MOD}.PartExtracter")
             ip = H.ip
             ip.instantiable |= {"PartExtracter"}
+            ip.class_models["CellAvg"] = lin_avg
             tag = f"arity-{arity} part of {desc}"
             try:
                 got = ip.call_function(fn, [e, arity, tuple(args)], {})
